@@ -58,11 +58,33 @@ class History:
         mod = cp if parser == "cond" else ap
         self.fn = cp.parse_condition_expression_to_tree if parser == "cond" else ap.parse_ahb_expression_to_single_requirement_indicator_expressions
         self.raw = mod._parser  # pylint:disable=protected-access
+        self.cached = [self.fn]
+        if parser == "resolve":
+            # the third way to obtain a tree for a string: the combined parser that also expands packages and time conditions
+            import asyncio
+            from ahbicht.expressions.expression_resolver import parse_expression_including_unresolved_subexpressions as resolve
+            from .. import evalenv
+            evalenv.configure_cer_based()
+            evalenv.set_cer(evalenv.make_cer(packages={"7P": "[1] U [2]", "8P": "[3] O ([4] U [UB1])", "9P": "[5][901]"}))
+            self.cached = [cp.parse_condition_expression_to_tree, ap.parse_ahb_expression_to_single_requirement_indicator_expressions]
+            self.fn = lambda s: asyncio.run(resolve(s, resolve_packages=True, replace_time_conditions=True))
+            self.raw = None
         self.clear()
         self.parser = parser
         self.strings = strings
         self.pure = {}
         for s in strings:
+            if self.raw is None:
+                # the resolver has no uncached twin: the reference is its own answer in a fresh process state (nothing has been edited yet)
+                self.clear()
+                try:
+                    self.pure[s] = canon(self.fn(s))
+                except SyntaxError:
+                    self.pure[s] = None
+                except BaseException as e:  # pylint:disable=broad-except
+                    self.pure[s] = ["raises", type(e).__name__]
+                self.clear()
+                continue
             try:
                 self.pure[s] = canon(self.raw.parse(s))
             except Exception:  # pylint:disable=broad-except
@@ -83,9 +105,10 @@ class History:
         self.failure = None
 
     def clear(self):
-        for c in (self.fn.__closure__ or []):
-            if hasattr(c.cell_contents, "cache_clear"):
-                c.cell_contents.cache_clear()
+        for f in getattr(self, "cached", [self.fn]):
+            for c in (f.__closure__ or []):
+                if hasattr(c.cell_contents, "cache_clear"):
+                    c.cell_contents.cache_clear()
 
     def subtrees(self, t, path=(), budget=None):
         budget = budget if budget is not None else [300]
@@ -227,7 +250,7 @@ def replay_ops(h: "History", ops):
 
 def run(ctx: Ctx) -> None:
     ctx.rule = ("histories of 150-400 (thorough: up to 3000) operations per parser: parse calls over 20-60 (thorough: 1500 > cache capacity 1024) distinct strings, "
-                "repeated and fresh (one history with expressions nested 150-330 brackets deep), interleaved with in-place edits (replace/remove/append/rebind/rename at random depth, inserting tokens, fresh trees, nodes of "
+                "repeated and fresh (one history with expressions nested 150-330 brackets deep; one through the combined resolver with packages and time conditions), interleaved with in-place edits (replace/remove/append/rebind/rename at random depth, inserting tokens, fresh trees, nodes of "
                 "older returned trees); every returned tree compared with an uncached parse; distinct = (parser, history index, operation index)")
     changed = extract.regenerate(["CopyMode"])
     ctx.coverage["generated_changed"] = changed
@@ -241,7 +264,7 @@ def run(ctx: Ctx) -> None:
             ctx.lean_check_olean(MODULES)
     rng = ctx.rng
     histories = []
-    plans = [("cond", ctx.pick(40, 60), ctx.pick(250, 400)), ("ahb", ctx.pick(25, 40), ctx.pick(200, 300)), ("cond", 8, 150), ("ahb", 5, 120), ("cond-deep", 6, 60)]
+    plans = [("cond", ctx.pick(40, 60), ctx.pick(250, 400)), ("ahb", ctx.pick(25, 40), ctx.pick(200, 300)), ("cond", 8, 150), ("ahb", 5, 120), ("cond-deep", 6, 60), ("resolve", 14, 160)]
     if not ctx.quick:
         plans += [("cond", 1500, 3500), ("ahb", 1200, 2600)] + [("cond", 30, 300)] * 6 + [("ahb", 20, 250)] * 6
     for parser, n_strings, n_ops in plans:
@@ -250,9 +273,17 @@ def run(ctx: Ctx) -> None:
         if deep:  # very deep but legal nesting: copying such a tree is where a copy routine may give up or take a short cut
             parser = "cond"
             strings = [deep_string(rng, d) for d in (150, 270, 330)]
+        if parser == "resolve":
+            deep = True  # (no model twin: answers of the resolver are compared with its own first answers)
+            strings = ["Muss [1] U [UB3]", "[UB1] O [UB1]", "Muss [UB2] Soll [7P]", "[7P] U [8P]", "X [9P] O [UB1]", "[2] U ([UB3] O [8P 1..2])"]
         while len(strings) < n_strings:
             e = T.rand_expr(rng, rng.randint(1, 5))
             s = T.render(e, T.Style(rng, "min", "upper", "one")).strip()
+            if parser == "resolve":
+                import re as _re
+                s = _re.sub(r"\[\d+P[^\]]*\]", lambda m: rng.choice(["[7P]", "[8P]", "[9P]"]), s)
+                if rng.random() < 0.5:
+                    s = rng.choice(["Muss ", "X ", "Soll "]) + s
             if parser == "ahb":
                 s = rng.choice(["Muss", "Soll", "Kann", "X"]) + " " + s + rng.choice(["", " Kann", " Soll [1]"])
             if rng.random() < 0.05:
